@@ -203,6 +203,31 @@ func checkBodyRanges(src []byte, body *hclsyntax.Body) {
 			vf.Assert(re.Range().Start.Byte == er.Start.Byte && re.Range().End.Byte == er.End.Byte, "expr-range-reparse-same-range")
 		}
 		vf.Assert(attr.SrcRange.Start.Byte == attr.NameRange.Start.Byte && attr.SrcRange.End.Byte == er.End.Byte, "attr-range-spans-name-to-expr")
+		// every nested expression node: a well-formed range inside the attribute's expression
+		hclsyntax.VisitAll(attr.Expr, func(n hclsyntax.Node) hcl.Diagnostics {
+			r := n.Range()
+			vf.Assert(r.Start.Byte <= r.End.Byte && r.Start.Byte >= er.Start.Byte && r.End.Byte <= er.End.Byte, "nested-node-range-inside-expression")
+			if e, ok := n.(hclsyntax.Expression); ok {
+				sr := e.StartRange()
+				vf.Assert(sr.Start.Byte <= sr.End.Byte && sr.Start.Byte >= er.Start.Byte && sr.End.Byte <= er.End.Byte, "nested-node-start-range-inside-expression")
+			}
+			if sp, ok := n.(*hclsyntax.SplatExpr); ok {
+				m := ""
+				for _, c := range slice(src, sp.MarkerRange) {
+					if c != ' ' && c != '\t' && c != '\n' && c != '\r' {
+						m += string(c)
+					}
+				}
+				vf.Assert(m == ".*" || m == "[*]", "splat-marker-range-slices-to-the-marker")
+			}
+			if tr, ok := n.(*hclsyntax.ScopeTraversalExpr); ok {
+				for _, st := range tr.Traversal {
+					sr := st.SourceRange()
+					vf.Assert(sr.Start.Byte <= sr.End.Byte && sr.Start.Byte >= r.Start.Byte && sr.End.Byte <= r.End.Byte, "traversal-step-range-inside-traversal")
+				}
+			}
+			return nil
+		})
 	}
 	for _, blk := range body.Blocks {
 		vf.Assert(string(slice(src, blk.TypeRange)) == blk.Type, "block-type-range")
